@@ -34,7 +34,11 @@ import (
 // observation of c01Run follows.
 // ---------------------------------------------------------------------------------------
 
-var c01Modes = []string{"seq", "load", "inter", "batch", "mixed"}
+//	reload an enforcer first loads a DIFFERENT policy (some links dropped, foreign links added, a
+//	       prefix of the p rules), answers the case's requests (compiled matchers and g() memos
+//	       exist), then the store's content is replaced by the case's policy and LoadPolicy runs
+//	       - with auto-build-role-links on, or off and followed by BuildRoleLinks()
+var c01Modes = []string{"seq", "load", "inter", "batch", "mixed", "reload"}
 
 func (cs *c01Case) modeName() string {
 	if cs.mode == "" {
@@ -45,7 +49,9 @@ func (cs *c01Case) modeName() string {
 
 // c01PickMode draws a construction mode (weights: seq 2, load 2, inter 3, batch 1, mixed 3).
 func c01PickMode(r *rand.Rand) string {
-	switch x := r.Intn(11); {
+	switch x := r.Intn(13); {
+	case x >= 11:
+		return "reload"
 	case x < 2:
 		return "seq"
 	case x < 4:
@@ -181,6 +187,75 @@ func c01Construct(c *Ctx, cs *c01Case, m model.Model) *casbin.Enforcer {
 			lines = append(lines[:at:at], append([][]string{l}, lines[at:]...)...)
 		}
 		return newE(lines)
+	case "reload":
+		var final, first [][]string
+		var us, rs []string
+		for _, d := range cs.g {
+			for _, rule := range d.rules {
+				if len(rule) >= 2 {
+					us = append(us, rule[0])
+					rs = append(rs, rule[1])
+				}
+			}
+		}
+		for _, d := range cs.p {
+			k := r.Intn(len(d.rules) + 1)
+			for i, rule := range d.rules {
+				final = append(final, line(d.key, rule))
+				if i < k {
+					first = append(first, line(d.key, rule))
+				}
+			}
+		}
+		for _, d := range cs.g {
+			for _, rule := range d.rules {
+				final = append(final, line(d.key, rule))
+				if r.Intn(2) == 0 {
+					first = append(first, line(d.key, rule))
+				}
+			}
+			// foreign links of the first policy (not part of the case)
+			for k := r.Intn(3); k > 0 && len(us) > 0; k-- {
+				det := []string{rs[r.Intn(len(rs))], us[r.Intn(len(us))]}
+				if d.count > 2 {
+					if len(d.rules) == 0 {
+						break
+					}
+					det = append(det, d.rules[r.Intn(len(d.rules))][2:d.count]...)
+				}
+				if len(det) >= d.count {
+					first = append(first, line(d.key, det))
+				}
+			}
+		}
+		if first == nil {
+			first = [][]string{}
+		}
+		ad := &c01Adapter{lines: first}
+		e, err := casbin.NewEnforcer(m, ad)
+		if err != nil {
+			panic(fmt.Sprint("NewEnforcer ", cs.id, " mode=", mode, " ", err))
+		}
+		for _, rq := range cs.reqs {
+			_, _ = e.Enforce(rq.goArgs()...)
+		}
+		if final == nil {
+			final = [][]string{}
+		}
+		ad.lines = final
+		if r.Intn(2) == 0 {
+			e.EnableAutoBuildRoleLinks(false)
+			if err := e.LoadPolicy(); err != nil {
+				panic(fmt.Sprint("LoadPolicy ", cs.id, " mode=", mode, " ", err))
+			}
+			if err := e.BuildRoleLinks(); err != nil {
+				panic(fmt.Sprint("BuildRoleLinks ", cs.id, " mode=", mode, " ", err))
+			}
+			e.EnableAutoBuildRoleLinks(true)
+		} else if err := e.LoadPolicy(); err != nil {
+			panic(fmt.Sprint("LoadPolicy ", cs.id, " mode=", mode, " ", err))
+		}
+		return e
 	case "batch":
 		e := newE(nil)
 		type chunk struct {
@@ -390,7 +465,7 @@ func c01RunMode(c *Ctx, cs *c01Case) {
 
 // the case id names the construction mode (the interleaving itself is a function of the seed)
 func (cs *c01Case) fixMode() {
-	if (cs.mode == "load" || cs.mode == "mixed") && !cs.loadable() {
+	if (cs.mode == "load" || cs.mode == "mixed" || cs.mode == "reload") && !cs.loadable() {
 		cs.mode = "inter"
 	}
 	if cs.mode != "" && !strings.HasSuffix(cs.id, ".via-"+cs.mode) {
